@@ -13,7 +13,7 @@ pub enum S {
     Tup(Option<String>, Vec<(Option<String>, S)>),
     /// k-th ref of the program: 0..2 minted by the main process, 3..4 minted in child processes
     Ref(usize),
-    /// closure made by maker k (0: add, 1: multiply) capturing an integer value
+    /// closure made by maker k (0: add, 1: multiply, capturing an integer; 2: generic, capturing anything)
     Clo(usize, Box<S>),
     /// named function k, referenced with `&`
     FnRef(usize),
@@ -108,6 +108,19 @@ pub fn gen_int(r: &mut Rng) -> BigInt {
 }
 
 pub fn gen_bin(r: &mut Rng) -> Vec<u8> {
+    // half of the binaries are periodic (a unit of 1..3 bytes tiled 2..12 times) or zero-filled, so
+    // that the same content can be built as different rope shapes (repeat with several
+    // factorisations, zero-fill, slices of those, …)
+    if r.below(2) == 0 {
+        let ulen = 1 + r.usize(3);
+        let unit: Vec<u8> = match r.below(4) {
+            0 => vec![0u8; ulen],
+            1 => vec![r.below(256) as u8; ulen],
+            _ => r.bytes(ulen),
+        };
+        let count = [2usize, 3, 4, 6, 8, 12][r.usize(6)];
+        return unit.iter().cycle().take(ulen * count).copied().collect();
+    }
     let n = match r.below(8) {
         0 => 0,
         1 => 1,
@@ -120,6 +133,11 @@ pub fn gen_bin(r: &mut Rng) -> Vec<u8> {
         0 => vec![0u8; n],
         _ => r.bytes(n),
     }
+}
+
+/// All `d` such that `b` is `b[..d]` repeated `len / d` times (including `d = len`).
+pub fn periods(b: &[u8]) -> Vec<usize> {
+    (1..=b.len()).filter(|d| b.len() % d == 0 && b.chunks(*d).all(|c| c == &b[..*d])).collect()
 }
 
 const NAMES: [&str; 4] = ["P", "Q", "Rr", "Pp"];
@@ -135,7 +153,14 @@ pub fn gen_spec(r: &mut Rng, depth: usize, sim: bool) -> S {
             8 => S::Tup(Some("Ok".into()), vec![]),
             9 => S::Tup(Some(NAMES[r.usize(NAMES.len())].into()), vec![]),
             10 | 11 => S::Ref(r.usize(if sim { 5 } else { 3 })),
-            12 => S::Clo(r.usize(2), Box::new(S::Int(BigInt::from(r.range(0, 3))))),
+            12 => {
+                if r.below(3) == 0 {
+                    // generic maker: captures any value (one function index for all instantiations)
+                    S::Clo(2, Box::new(gen_spec(r, depth.min(2).saturating_sub(1), sim)))
+                } else {
+                    S::Clo(r.usize(2), Box::new(S::Int(BigInt::from(r.range(0, 3)))))
+                }
+            }
             13 => S::FnRef(r.usize(2)),
             _ => S::Proc(r.usize(2)),
         };
@@ -185,11 +210,17 @@ pub fn mutate(s: &S, r: &mut Rng, sim: bool) -> S {
             S::Bin(b2)
         }
         S::Ref(k) => S::Ref((k + 1 + r.usize(2)) % if sim { 5 } else { 3 }),
+        S::Clo(2, c) => S::Clo(2, Box::new(mutate(c, r, sim))),
         S::Clo(k, c) => {
             if r.below(2) == 0 {
                 S::Clo(1 - k, c.clone())
             } else {
-                S::Clo(*k, Box::new(mutate(c, r, sim)))
+                // the makers capture an integer
+                let c2 = match &**c {
+                    S::Int(i) => S::Int(i + 1 + r.below(3) as i64),
+                    other => other.clone(),
+                };
+                S::Clo(*k, Box::new(c2))
             }
         }
         S::FnRef(k) => S::FnRef(1 - k),
@@ -304,6 +335,7 @@ impl Pb {
         self.push("id = #<'t>'t { ~ }".into());
         self.push("mkc0 = #'int { =n, #'int { [~, n] __integer_add__ } }".into());
         self.push("mkc1 = #'int { =n, #'int { [~, n] __integer_multiply__ } }".into());
+        self.push("mkc2 = #<'t>'t { =c, #{ &c } }".into());
         self.push("fn0 = #'int { [~, 1] __integer_add__ }".into());
         self.push("fn1 = #'int { [~, 2] __integer_add__ }".into());
         if refs_main {
@@ -405,6 +437,70 @@ impl Pb {
         }
     }
 
+    /// Build a binary with content `b` as a random *rope shape*: literal (owned), concat, slice of a
+    /// larger binary, repeat under a random factorisation of a periodic content (tiled), zero-fill,
+    /// module constant — recursively for the parts, so shapes nest.
+    fn build_bin(&mut self, b: &[u8], r: &mut Rng, depth: usize) -> String {
+        let v = self.fresh("v");
+        let choice = if depth == 0 { r.below(2) } else { 2 + r.below(9) };
+        match choice {
+            0 | 2 | 3 => {
+                self.path("bin-literal");
+                self.push(format!("{v} = 0x{}", hex(b)));
+            }
+            1 | 4 => {
+                self.path("bin-module");
+                let m = self.fresh("mb");
+                self.modules.insert(vec![m.clone()], format!("[val: 0x{}]", hex(b)));
+                self.push(format!("{m} = %{m}"));
+                self.push(format!("{v} = {m}.val"));
+            }
+            5 | 6 => {
+                self.path("bin-concat");
+                let k = r.usize(b.len() + 1);
+                let x = self.build_bin(&b[..k], r, depth - 1);
+                let y = self.build_bin(&b[k..], r, depth - 1);
+                self.push(format!("{v} = [&{x}, &{y}] __binary_concat__"));
+            }
+            7 => {
+                self.path("bin-slice");
+                let (n1, n2) = (r.usize(3), r.usize(3));
+                let pre = r.bytes(n1);
+                let post = r.bytes(n2);
+                let mut big = pre.clone();
+                big.extend_from_slice(b);
+                big.extend_from_slice(&post);
+                let x = self.build_bin(&big, r, depth - 1);
+                self.push(format!("{v} = [&{x}, {}, {}] __binary_slice__", pre.len(), pre.len() + b.len()));
+            }
+            8 | 9 => {
+                // tiled: one of the factorisations unit × count of the content (count 1 = the unit itself)
+                let ps = periods(b);
+                if ps.is_empty() {
+                    self.path("bin-literal");
+                    self.push(format!("{v} = 0x{}", hex(b)));
+                } else {
+                    let d = ps[r.usize(ps.len())];
+                    self.path(if b.len() / d > 1 { "bin-repeat-tiled" } else { "bin-repeat-once" });
+                    let x = self.build_bin(&b[..d], r, depth - 1);
+                    self.push(format!("{v} = [&{x}, {}] __binary_repeat__", b.len() / d));
+                }
+            }
+            _ => {
+                if !b.is_empty() && b.iter().all(|x| *x == 0) {
+                    self.path("bin-zero-fill");
+                    self.push(format!("{v} = {} __binary_new__", b.len()));
+                } else {
+                    // a zero-filled binary of the same length or-ed with the content (owned result)
+                    self.path("bin-or-with-zero-fill");
+                    let x = self.build_bin(b, r, depth - 1);
+                    self.push(format!("{v} = [&{x}, {} __binary_new__] __binary_or__", b.len()));
+                }
+            }
+        }
+        v
+    }
+
     fn build_direct(&mut self, s: &S, r: &mut Rng) -> String {
         let v = self.fresh("v");
         match s {
@@ -433,31 +529,10 @@ impl Pb {
                     self.push(format!("{v} = {m}.val"));
                 }
             },
-            S::Bin(b) => match r.below(6) {
-                0 | 1 => {
-                    self.path("bin-literal");
-                    self.push(format!("{v} = 0x{}", hex(b)));
-                }
-                2 | 3 => {
-                    self.path("bin-concat-heap");
-                    let k = r.usize(b.len() + 1);
-                    self.push(format!("{v} = [0x{}, 0x{}] __binary_concat__", hex(&b[..k]), hex(&b[k..])));
-                }
-                4 => {
-                    self.path("bin-concat3-heap");
-                    let k = r.usize(b.len() + 1);
-                    let u = self.fresh("v");
-                    self.push(format!("{u} = [0x{}, 0x] __binary_concat__", hex(&b[..k])));
-                    self.push(format!("{v} = [&{u}, 0x{}] __binary_concat__", hex(&b[k..])));
-                }
-                _ => {
-                    self.path("bin-module");
-                    let m = self.fresh("mb");
-                    self.modules.insert(vec![m.clone()], format!("[val: 0x{}]", hex(b)));
-                    self.push(format!("{m} = %{m}"));
-                    self.push(format!("{v} = {m}.val"));
-                }
-            },
+            S::Bin(b) => {
+                let u = self.build_bin(b, r, 2);
+                self.push(format!("{v} = &{u}"));
+            }
             S::Ref(k) => {
                 self.path(if *k >= 3 { "ref-minted-in-child" } else { "ref-main" });
                 self.push(format!("{v} = &r{k}"));
@@ -620,6 +695,28 @@ impl Pb {
             }
         }
         v
+    }
+
+    /// The program cut into `k` REPL inputs (statement boundaries drawn from `r`): the tuple table
+    /// grows and the canonical table is recomputed between the construction of the two values.
+    /// Only for programs without typed messages (`me = &.` must share a line with its receives).
+    pub fn chunks(&self, result: &str, k: usize, r: &mut Rng) -> Vec<String> {
+        let mut cuts: Vec<usize> = (0..k.saturating_sub(1)).map(|_| 1 + r.usize(self.stmts.len().max(2) - 1)).collect();
+        cuts.sort();
+        cuts.dedup();
+        let mut out = vec![];
+        let mut start = 0;
+        for c in cuts {
+            if c > start && c < self.stmts.len() {
+                out.push(self.stmts[start..c].join("\n"));
+                start = c;
+            }
+        }
+        let mut last = self.stmts[start..].join("\n");
+        last.push('\n');
+        last.push_str(result);
+        out.push(last);
+        out
     }
 
     /// Full source text.
